@@ -11,6 +11,9 @@ transcribed function by function, in the order of effects of the Rust code.
   write to the storage before they can fail (`insert` stores the leaf before `path_set`; `delete` removes
   the path nodes before it reads the first side node), and the harness continues after an `Err`.
 * Rust panics (`unwrap`/`expect`/index/overflow checks) are the constructor `Err.panic`.
+* The order of storage effects inside `update_with_path_set` / `delete_with_path_set` transcribed below is the
+  one `tools/gen/sparse.py` extracts from the Rust text (`Gen.Sparse.updateEffects`, `deleteEffects`);
+  `Props/C12Store.lean` (`update_effect_order`, `delete_effect_order`) fails to build when they differ.
 -/
 import FuelVerif.Basic.Util
 import FuelVerif.Gen.Sparse
